@@ -33,6 +33,15 @@ def cases(chk: common.Check) -> list[dict]:
     # F-H1 witness (fixed): a log backlog larger than a pipe buffer at exit
     cs.append({'func': 'noisy', 'args': [300], 'logging': True, 'classes': ['returned 1']})
     cs.append({'func': 'noisy', 'args': [3000], 'logging': True, 'classes': ['returned 1']})
+    # log collection with a slow (blocking) log handler in the parent: the child logs a handful of short records just before it returns /
+    # raises, so the log listener is seconds behind when the process has exited.  When awaiting the handle yields, the listener must have
+    # finished (every record handled, no helper task left).  delay 0 = the ordinary fast handler, as a control.
+    slow = [(10, 0.5, 'return'), (8, 0.6, 'raise'), (8, 0.0, 'return')]
+    if chk.tier != 'quick':
+        slow += [(12, 0.3, 'return'), (4, 1.0, 'return'), (20, 0.15, 'raise'), (1, 3.0, 'return')]
+    for n, delay, how in slow:
+        cs.append({'func': 'log_then', 'args': [n, how], 'logging': True, 'slow_handler': {'delay': delay}, 'n_records': n,
+                   'classes': ['returned 1'] if how == 'return' else ['raised 1'], 'timeout': 60})
     # the function returns at once but the process takes 4.5 s to exit (a non-daemon thread): awaiting the handle yields only then
     cs.append({'func': 'linger', 'args': [4.5], 'logging': False, 'classes': ['returned 1'], 'timeout': 30})
     cs.append({'func': 'linger', 'args': [4.5], 'logging': True, 'classes': ['returned 1'], 'timeout': 30})
@@ -108,7 +117,7 @@ def classify(res: dict) -> str:
 def run(chk: common.Check) -> None:
     chk.cov.rule = ('run_in_process under the spawn context, each case in its own sub-process with a wall-clock bound: outcomes {return, unpicklable '
                     'return, raise, dynamic exception class, sys.exit, os._exit(0/1/3), self-SIGKILL} × {log collection on/off} (+ initializer), a '
-                    'log backlog larger than a pipe buffer, and SIGINT/SIGTERM/SIGKILL at instants from interpreter boot to racing completion. '
+                    'log backlog larger than a pipe buffer, a slow (blocking) log handler in the parent with records logged just before the end, and SIGINT/SIGTERM/SIGKILL at instants from interpreter boot to racing completion. '
                     'Non-trivial: the child did not simply return; distinct = distinct case.')
     chk.assumptions += ['what the future resolves to for each way of dying is concurrent.futures behaviour (modelled in futureOf, exercised here)',
                         'reaping and thread clean-up are observed, not proved']
@@ -122,6 +131,8 @@ def run(chk: common.Check) -> None:
     for spec, res in zip(cs, results):
         chk.cov.case(json.dumps(spec, sort_keys=True), trivial=spec['func'] == 'ret_value' and not spec.get('signal'))
         chk.cov.count('func', spec['func'])
+        if spec.get('slow_handler'):
+            chk.cov.count('kinds', 'slow-log-handler' if spec['slow_handler']['delay'] else 'fast-log-handler')
         msgs = []
         if not res.get('awaited'):
             msgs.append(f"awaiting the handle did not yield: {res.get('raised_out')}")
@@ -132,6 +143,17 @@ def run(chk: common.Check) -> None:
                 msgs.append('the process has no exit code after the handle was awaited')
             if res['is_alive']:
                 msgs.append('the process is still alive after the handle was awaited')
+            if res.get('tasks_left_at_yield'):
+                sh = spec.get('slow_handler')
+                msgs.append(f"{len(res['tasks_left_at_yield'])} helper task(s) still running at the instant awaiting the handle yielded "
+                            f"(after {res.get('yield_after_s')} s): {res['tasks_left_at_yield']}"
+                            + (f"; log collection with a blocking log handler in the parent ({sh['delay']} s per record): "
+                               f"{res.get('records_handled_at_yield')} of the child's {spec['n_records']} records handled by then "
+                               f"({res.get('records_handled_finally')} after {res.get('records_finally_after_s')} s)" if sh else ''))
+            if spec.get('slow_handler') and res.get('records_handled_at_yield') != spec['n_records']:
+                msgs.append(f"log collection with a blocking log handler in the parent ({spec['slow_handler']['delay']} s per record): only "
+                            f"{res.get('records_handled_at_yield')} of the {spec['n_records']} records the child logged before it finished had been "
+                            f"handled when awaiting the handle yielded (after {res.get('yield_after_s')} s): the log listener had not finished")
             if res['pending_tasks']:
                 msgs.append(f"{res['pending_tasks']} helper task(s) still pending after the handle was awaited")
             if not res.get('times_ok'):
